@@ -326,23 +326,23 @@ package index
 // Commit keeps the newest n epochs live, moves the older ones to the deletable list and keeps the two
 // lists disjoint (epochs are handed in strictly increasing, so the new one is in neither list).
 //@ func KeepNLatestDeletionPolicy.Commit
-//@   props C11 C03 C12
+//@   props C11
 //@   nopanic nonil
 //@   heap_wf
-//@   requires {C11} p != nil && snapshot != nil && p.n >= 0 && p.liveSegments != nil && p.knownSegmentFiles != nil
-//@   requires {C11} [entries-non-nil] forall k int :: (0 <= k && k < len(snapshot.segment)) ==> snapshot.segment[k] != nil
-//@   requires {C11} [live-and-deletable-disjoint] forall a int, b int :: (0 <= a && a < len(p.liveEpochs) && 0 <= b && b < len(p.deletableEpochs)) ==> p.liveEpochs[a] != p.deletableEpochs[b]
-//@   requires {C11} [live-distinct] forall a int, b int :: (0 <= a && a < b && b < len(p.liveEpochs)) ==> p.liveEpochs[a] != p.liveEpochs[b]
-//@   requires {C11} [separate-arrays] isnil(p.liveEpochs) || isnil(p.deletableEpochs) || base(p.liveEpochs) != base(p.deletableEpochs)
-//@   requires {C11} [epoch-is-new] (forall a int :: (0 <= a && a < len(p.liveEpochs)) ==> p.liveEpochs[a] != snapshot.epoch) && (forall b int :: (0 <= b && b < len(p.deletableEpochs)) ==> p.deletableEpochs[b] != snapshot.epoch)
+//@   requires p != nil && snapshot != nil && p.n >= 0 && p.liveSegments != nil && p.knownSegmentFiles != nil
+//@   requires [entries-non-nil] forall k int :: (0 <= k && k < len(snapshot.segment)) ==> snapshot.segment[k] != nil
+//@   requires [live-and-deletable-disjoint] forall a int, b int :: (0 <= a && a < len(p.liveEpochs) && 0 <= b && b < len(p.deletableEpochs)) ==> p.liveEpochs[a] != p.deletableEpochs[b]
+//@   requires [live-distinct] forall a int, b int :: (0 <= a && a < b && b < len(p.liveEpochs)) ==> p.liveEpochs[a] != p.liveEpochs[b]
+//@   requires [separate-arrays] isnil(p.liveEpochs) || isnil(p.deletableEpochs) || base(p.liveEpochs) != base(p.deletableEpochs)
+//@   requires [epoch-is-new] (forall a int :: (0 <= a && a < len(p.liveEpochs)) ==> p.liveEpochs[a] != snapshot.epoch) && (forall b int :: (0 <= b && b < len(p.deletableEpochs)) ==> p.deletableEpochs[b] != snapshot.epoch)
 //@   modifies *
-//@   at call append: assert {C11} [kept-epochs-not-among-the-trimmed] forall a int, b int :: (0 <= a && a < len(p.liveEpochs) && 0 <= b && b < len(newlyDeletable)) ==> p.liveEpochs[a] != newlyDeletable[b]
-//@   at call append: assert {C11} [kept-epochs-not-deletable-yet] forall a int, b int :: (0 <= a && a < len(p.liveEpochs) && 0 <= b && b < len(p.deletableEpochs)) ==> p.liveEpochs[a] != p.deletableEpochs[b]
-//@   ensures {C11} [keeps-n-latest] len(p.liveEpochs) == ite(old(len(p.liveEpochs)) + 1 > p.n, p.n, old(len(p.liveEpochs)) + 1)
-//@   ensures {C11} [newest-is-live] p.n >= 1 ==> p.liveEpochs[len(p.liveEpochs) - 1] == snapshot.epoch
-//@   ensures {C11} [live-and-deletable-disjoint] forall a int, b int :: (0 <= a && a < len(p.liveEpochs) && 0 <= b && b < len(p.deletableEpochs)) ==> p.liveEpochs[a] != p.deletableEpochs[b]
-//@   ensures {C11} [live-distinct] forall a int, b int :: (0 <= a && a < b && b < len(p.liveEpochs)) ==> p.liveEpochs[a] != p.liveEpochs[b]
-//@   ensures {C11} [separate-arrays] isnil(p.liveEpochs) || isnil(p.deletableEpochs) || base(p.liveEpochs) != base(p.deletableEpochs)
+//@   at call append: assert [kept-epochs-not-among-the-trimmed] forall a int, b int :: (0 <= a && a < len(p.liveEpochs) && 0 <= b && b < len(newlyDeletable)) ==> p.liveEpochs[a] != newlyDeletable[b]
+//@   at call append: assert [kept-epochs-not-deletable-yet] forall a int, b int :: (0 <= a && a < len(p.liveEpochs) && 0 <= b && b < len(p.deletableEpochs)) ==> p.liveEpochs[a] != p.deletableEpochs[b]
+//@   ensures [keeps-n-latest] len(p.liveEpochs) == ite(old(len(p.liveEpochs)) + 1 > p.n, p.n, old(len(p.liveEpochs)) + 1)
+//@   ensures [newest-is-live] p.n >= 1 ==> p.liveEpochs[len(p.liveEpochs) - 1] == snapshot.epoch
+//@   ensures [live-and-deletable-disjoint] forall a int, b int :: (0 <= a && a < len(p.liveEpochs) && 0 <= b && b < len(p.deletableEpochs)) ==> p.liveEpochs[a] != p.deletableEpochs[b]
+//@   ensures [live-distinct] forall a int, b int :: (0 <= a && a < b && b < len(p.liveEpochs)) ==> p.liveEpochs[a] != p.liveEpochs[b]
+//@   ensures [separate-arrays] isnil(p.liveEpochs) || isnil(p.deletableEpochs) || base(p.liveEpochs) != base(p.deletableEpochs)
 //@   loop 1
 //@     invariant p.n == old(p.n) && p.liveEpochs == old(p.liveEpochs) && p.deletableEpochs == old(p.deletableEpochs)
 
